@@ -10,6 +10,9 @@
                output: one snapshot after the constructor and after every operation:
                [open attempt: 9 none / 0 opened, warned / 1 / 2 / 3; -]  ++ [live sr.ns: 0 n / 2 0 / 3 0]
                ++ [frames of the mapped array or -1] ++ enc(meta fileTimeSecs) ++ enc(sr.rl) (class 9 if ns raises)
+           [3; online; itemsize; nbytes; has_nc; nc; has_ns; ns; has_fs; fs]   Reader / OnlineReader without a meta file
+               (the caller's nc= ns= fs= arguments or None); output as for the flat binary with rl = ns / fs,
+               [5] AssertionError (nc or fs missing), [3] TypeError (ns missing)
    output: [0; ns; nc; warned] ++ enc(meta fileTimeSecs afterwards) ++ enc(rl)    opened
            (warned = the mismatch warning was logged = fileTimeSecs rewritten and not ignore_warnings)
            [1] memmap ValueError   [2] int() of inf/nan   [3] TypeError (no fileTimeSecs)
@@ -72,6 +75,14 @@ Definition run (inp : list Z) : list Z :=
   | [1; iw; chns; chnc; nc; fsm; fse; has; ftm; fte] =>
       let fs := of_me fsm fse in
       enc_outcome (iw =? 1) fs (open_cbin chns chnc nc (dec_fts has ftm fte) fs)
+  | [3; online; isz; nbytes; hnc; nc; hns; ns; hfs; fs] =>
+      let o v h := if h =? 1 then Some v else None in
+      match construct_nometa nbytes (o nc hnc) (o ns hns) (o fs hfs) with
+      | NmOk c n f => enc_outcome true (of_Z f) (open_nometa (online =? 1) isz nbytes c n)
+      | NmAssert => [5]
+      | NmType => [3]
+      | NmInt => [2]
+      end
   | 2 :: online :: iw :: isz :: nc :: fsm :: fse :: has :: ftm :: fte :: size0 :: oflag :: ops =>
       flat_map (enc_snap (iw =? 1))
         (history (online =? 1) isz nc (of_me fsm fse) (dec_fts has ftm fte) size0 (oflag =? 1) (dec_ops ops))
